@@ -206,6 +206,15 @@ impl BulkLoader {
             }
         }
 
+        // Property values the decoder would refuse must not be stored.
+        let node_values = self.nodes.iter().flat_map(|n| n.properties.values());
+        let edge_values = self.edges.iter().flat_map(|e| e.properties.values());
+        for value in node_values.chain(edge_values) {
+            if value.exceeds_nesting(nervusdb_api::MAX_PROPERTY_NESTING) {
+                return Err(Error::WalProtocol("property value nested too deeply"));
+            }
+        }
+
         Ok(())
     }
 
